@@ -232,6 +232,33 @@ var c09Families = []c09Family{
 		p := append(name, rep([]byte{0xC0, 0x00}, max(0, n-len(name)-12))...)
 		return append([]byte{1, 1, 2, 3}, v6opt(56, clip64k(v6opt(3, clip64k(p)[:min(len(p), 65531)])))...)
 	}},
+	{"v6/label-second-framing", true, func(n, variant int) []byte {
+		// in-place names of three 63-octet labels whose content, read from offset 1, is a second chain of
+		// 63-octet labels stepping over the in-place length octets; then bare pointers into that content.
+		var region []byte
+		for len(region)+193 <= max(193, n/2) {
+			name := make([]byte, 193)
+			name[0], name[64], name[128] = 63, 63, 63
+			for i := range name {
+				if name[i] == 0 && i != 192 {
+					name[i] = 'x'
+				}
+			}
+			name[1], name[65], name[129] = 63, 63, 63 // second framing: length octets one past the real ones
+			region = append(region, name...)
+		}
+		target := []int{1, 65, 2, 129}[variant%4]
+		p := append(region, rep([]byte{0xC0, byte(target)}, max(0, n-len(region)-8))...)
+		return append([]byte{1, 1, 2, 3}, v6opt(24, clip64k(p))...)
+	}},
+	{"v6/relaymsg-in-plain-message", true, func(n, variant int) []byte {
+		// option 9 carrying a plain (non-relay) message that again carries option 9 …: 8 bytes per level
+		inner := []byte{byte(1 + variant%11), 1, 2, 3}
+		for len(inner)+8 <= n && len(inner) <= 65000 {
+			inner = append([]byte{byte(1 + variant%11), 0, 0, 0, 0, 9, byte(len(inner) >> 8), byte(len(inner))}, inner...)
+		}
+		return inner
+	}},
 	{"v6/relay-nesting", true, func(n, variant int) []byte {
 		inner := []byte{1, 1, 2, 3}
 		for len(inner)+38 <= n && len(inner)+4 <= 65535 {
